@@ -95,6 +95,17 @@ CLAIMED = {
              "mismatches. Result == pointwise definition at all breakpoints/midpoints/outside points and every depth; "
              "operands and bystanders unchanged after successful and rejected operations. Exploration.",
         note="Models are captured from constructor output; tolerance 1e-9*value scale + 1e-11*abscissa scale."),
+    "C20": dict(
+        design="4/C20", engine="plot-env",
+        technique="deterministic simulation of pyplot's process-global state: several clients own axes, an environment "
+                  "actor driven by the seeded scheduler moves the current figure/axes and opens/closes stray figures "
+                  "between calls; artists added to the target axes compared with a data-level model, all other axes "
+                  "checked for conservation",
+        text="Seeded search over (clients x plotting calls x option combinations x which axes is current): scatter "
+             "offsets == float32 points, infinity line inside the view, limits, title/labels/legend; matching plots: "
+             "segment multiset == matching rows (matchings from the real distance functions under scheduler-owned set "
+             "orders), distinct style for a maximal row; isolation of every other axes, no stray figure. Exploration.",
+        note="Agg canvas, artists inspected as data; ax=None means the current axes; 2-D landscape plots are unchecked traffic."),
 }
 
 NOT_APPLICABLE = {
